@@ -18,9 +18,13 @@ Definition op_of (c : cop) : op :=
   match c with A w k => OAcq w k | D i => ORel (Z.to_nat i) | TA x tb => OTAcq x tb | TD i => OTRel (Z.to_nat i) end.
 
 (* outcome codes: 1 = finished, 2 = blocked, 3 = skipped, otherwise the site reached *)
-Definition stepobs := (Z * Z * list (Z * Z) * list (Z * Z * Z))%type.   (* thread, outcome, woke (thread, site), occupancy (page, writers, readers) *)
+(* (constructors rather than tuples: case files elaborate several times faster) *)
+Inductive wk := Wk (t site : Z).                 (* a blocked thread that was released and ran to [site] *)
+Inductive oc := Oc (k writers readers : Z).     (* occupancy counters of page k *)
+Inductive bl := Bl (t k : Z) (w : bool).         (* thread t is blocked in page_write (w) / page_read of page k *)
+Inductive stepobs := SO (t out : Z) (woke : list wk) (occ : list oc).
 Inductive fin :=
-| FComplete (acq cont tacq : Z) (blocked : list (Z * Z * bool))   (* ran until nobody can move; LockStats; who is still blocked on what *)
+| FComplete (acq cont tacq : Z) (blocked : list bl)   (* ran until nobody can move; LockStats; who is still blocked on what *)
 | FTrunc.                                                          (* observation stopped (two threads blocked at once: wake-up order is up to parking_lot) *)
 Inductive case := Case (progs : list (list cop)) (steps : list stepobs) (f : fin).
 
@@ -37,7 +41,7 @@ Definition outcome_of (t : nat) (enabled : bool) (s' : St) : Z :=
   else 3.
 
 (* blocked threads that can move now run to their next site (they were left running by the scheduler) *)
-Fixpoint settle (fx : bool) (ids : list nat) (s : St) : St * list (Z * Z) :=
+Fixpoint settle (fx : bool) (ids : list nat) (s : St) : St * list wk :=
   match ids with
   | [] => (s, [])
   | u :: r =>
@@ -47,7 +51,7 @@ Fixpoint settle (fx : bool) (ids : list nat) (s : St) : St * list (Z * Z) :=
             let s1 := run_until (step fx) at_site fuel u s in
             let woke := match lget (ths s1) u with
                         | Some th1 => if is_blocked_pc (th_pc th1) then []
-                                      else [(Z.of_nat u, match site_of th1 with Some n => n | None => if finished th1 then 1 else 2 end)]
+                                      else [Wk (Z.of_nat u) (match site_of th1 with Some n => n | None => if finished th1 then 1 else 2 end)]
                         | None => []
                         end in
             let '(s2, w2) := settle fx r s1 in (s2, woke ++ w2)
@@ -64,12 +68,12 @@ Fixpoint insert_key (k : Z) (l : list Z) : list Z :=
   end.
 Definition all_guards (s : St) : list guard := flat_map (fun p => th_pg (snd p)) (ths s).
 Definition count_g (w : bool) (k : Z) (gs : list guard) : Z := Z.of_nat (length (filter (g_holds w k) gs)).
-Definition occupancy (s : St) : list (Z * Z * Z) :=
+Definition occupancy (s : St) : list oc :=
   let gs := all_guards s in
-  map (fun k => (k, count_g true k gs, count_g false k gs)) (fold_right insert_key [] (map g_k gs)).
+  map (fun k => Oc k (count_g true k gs) (count_g false k gs)) (fold_right insert_key [] (map g_k gs)).
 
-Definition pair_eqb (a b : Z * Z) : bool := (fst a =? fst b) && (snd a =? snd b).
-Definition trip_eqb (a b : Z * Z * Z) : bool := pair_eqb (fst a) (fst b) && (snd a =? snd b).
+Definition pair_eqb (a b : wk) : bool := match a, b with Wk t s, Wk t' s' => (t =? t') && (s =? s') end.
+Definition trip_eqb (a b : oc) : bool := match a, b with Oc k w r, Oc k' w' r' => (k =? k') && (w =? w') && (r =? r') end.
 Fixpoint list_eqb {X} (eq : X -> X -> bool) (a b : list X) : bool :=
   match a, b with [], [] => true | x :: a', y :: b' => eq x y && list_eqb eq a' b' | _, _ => false end.
 
@@ -78,7 +82,7 @@ Definition ids_of (s : St) : list nat := map fst (ths s).
 Fixpoint simulate (fx : bool) (steps : list stepobs) (s : St) : St * bool :=
   match steps with
   | [] => (s, true)
-  | (t, out, woke, occ) :: r =>
+  | SO t out woke occ :: r =>
       let tn := Z.to_nat t in
       let enabled := match step fx tn s with Some _ => true | None => false end in
       let s1 := run_until (step fx) at_site fuel tn s in
@@ -87,13 +91,13 @@ Fixpoint simulate (fx : bool) (steps : list stepobs) (s : St) : St * bool :=
       let '(s3, ok3) := simulate fx r s2 in (s3, ok && ok3)
   end.
 
-Definition blocked_of (s : St) : list (Z * Z * bool) :=
+Definition blocked_of (s : St) : list bl :=
   flat_map (fun p => match th_pc (snd p) with
-                     | PLock w k _ _ => [(Z.of_nat (fst p), k, w)]
-                     | PWaitR k _ _ => [(Z.of_nat (fst p), k, true)]
+                     | PLock w k _ _ => [Bl (Z.of_nat (fst p)) k w]
+                     | PWaitR k _ _ => [Bl (Z.of_nat (fst p)) k true]
                      | _ => []
                      end) (ths s).
-Definition blk_eqb (a b : Z * Z * bool) : bool := pair_eqb (fst a) (fst b) && Bool.eqb (snd a) (snd b).
+Definition blk_eqb (a b : bl) : bool := match a, b with Bl t k w, Bl t' k' w' => (t =? t') && (k =? k') && Bool.eqb w w' end.
 Definition quiescent (s : St) : bool :=
   forallb (fun p => finished (snd p) || is_blocked_pc (th_pc (snd p))) (ths s).
 
@@ -112,26 +116,27 @@ Definition model_agrees (c : case) : bool :=
   end.
 
 (* ---- the property's own oracle, on the observations alone *)
-Definition occ_ok (occ : list (Z * Z * Z)) : bool :=
-  forallb (fun x => match x with (_, w, r) => (w <=? 1) && ((w =? 0) || (r =? 0)) end) occ.
-Fixpoint last_occ (steps : list stepobs) (d : list (Z * Z * Z)) : list (Z * Z * Z) :=
-  match steps with [] => d | (_, _, _, occ) :: r => last_occ r occ end.
-Definition occ_at (occ : list (Z * Z * Z)) (k : Z) : Z * Z :=
-  match find (fun x => match x with (k', _, _) => k' =? k end) occ with Some (_, w, r) => (w, r) | None => (0, 0) end.
+Definition occ_ok (occ : list oc) : bool :=
+  forallb (fun x => match x with Oc _ w r => (w <=? 1) && ((w =? 0) || (r =? 0)) end) occ.
+Definition so_occ (st : stepobs) : list oc := match st with SO _ _ _ occ => occ end.
+Fixpoint last_occ (steps : list stepobs) (d : list oc) : list oc :=
+  match steps with [] => d | SO _ _ _ occ :: r => last_occ r occ end.
+Definition occ_at (occ : list oc) (k : Z) : Z * Z :=
+  match find (fun x => match x with Oc k' _ _ => k' =? k end) occ with Some (Oc _ w r) => (w, r) | None => (0, 0) end.
 (* a thread that is still blocked when nobody can move any more must be waiting for a conflicting
    holder (or, for a reader, behind a waiting writer): otherwise an acquisition that should succeed did not *)
-Definition blocked_justified (occ : list (Z * Z * Z)) (bl : list (Z * Z * bool)) : bool :=
-  forallb (fun b => match b with (t, k, w) =>
+Definition blocked_justified (occ : list oc) (bl : list bl) : bool :=
+  forallb (fun b => match b with Bl t k w =>
      let ow := fst (occ_at occ k) in
      let orr := snd (occ_at occ k) in
      if (w : bool) then 0 <? ow + orr
-     else (0 <? ow) || existsb (fun b' => match b' with (t', k', w') => w' && (k' =? k) && negb (t' =? t) end) bl
+     else (0 <? ow) || existsb (fun b' => match b' with Bl t' k' w' => w' && (k' =? k) && negb (t' =? t) end) bl
    end) bl.
 
 Definition spec_ok (c : case) : bool :=
   match c with
   | Case progs steps f =>
-      forallb (fun st => match st with (_, _, _, occ) => occ_ok occ end) steps &&
+      forallb (fun st => occ_ok (so_occ st)) steps &&
       match f with
       | FTrunc => true
       | FComplete _ _ _ bl => blocked_justified (last_occ steps []) bl
